@@ -214,3 +214,16 @@ verif_proof! { [C38]
     #[kani::use_stub_set(crate::simd::verif_simd::sse_stubs)]
     fn c38_simd_non_negative_len8() { non_negative::<8>(); }
 }
+
+#[cfg(all(kani, feature = "simd"))]
+verif_proof! { [C38]
+    #[kani::unwind(33)]
+    #[kani::use_stub_set(crate::simd::verif_simd::sse_stubs)]
+    fn c38_simd_two_hot_len31() { two_hot::<31>(); }
+}
+#[cfg(all(kani, feature = "simd"))]
+verif_proof! { [C38]
+    #[kani::unwind(42)]
+    #[kani::use_stub_set(crate::simd::verif_simd::sse_stubs)]
+    fn c38_simd_two_hot_len40() { two_hot::<40>(); }
+}
